@@ -64,32 +64,9 @@ def fam_corrupted(w: World) -> None:
     if any(len(tok) > 4300 for tok in _digit_runs(text)):
         w.probe('int_literal_over_limit')
         ctx['huge_int'] = True
-    if max_nesting(text) > 64:
-        w.probe('nesting_beyond_quantifier_skipped')
+    if S.outside_quantifier(w, text):
         return
     S.judge_delivery(w, PROP, sut, text, CHECKS, ctx)
-
-
-def max_nesting(text: str) -> int:
-    """Maximum bracket depth outside string literals (an upper bound on container nesting)."""
-    depth = best = 0
-    in_str = esc = False
-    for c in text:
-        if in_str:
-            if esc:
-                esc = False
-            elif c == '\\':
-                esc = True
-            elif c == '"':
-                in_str = False
-        elif c == '"':
-            in_str = True
-        elif c in '[{':
-            depth += 1
-            best = max(best, depth)
-        elif c in ']}':
-            depth = max(0, depth - 1)
-    return best
 
 
 def _digit_runs(text: str) -> List[str]:
@@ -141,7 +118,7 @@ def fam_hostile(w: World) -> None:
 
 FAMILIES = {'server.traffic': fam_traffic, 'server.corrupted': fam_corrupted, 'server.hostile': fam_hostile}
 PLAN = {
-    'quick': {'server.traffic': 6000, 'server.corrupted': 8000, 'server.hostile': 8000},
+    'quick': {'server.traffic': 42000, 'server.corrupted': 56000, 'server.hostile': 56000},
     'thorough': {'server.traffic': 40000, 'server.corrupted': 60000, 'server.hostile': 60000},
 }
 THOROUGH_BUDGET_S = 600
